@@ -73,7 +73,9 @@ func goKey(k int) interface{} {
 	if k == nilKey {
 		return nil
 	}
-	switch k % 6 {
+	switch k % 7 {
+	case 6:
+		return "a-string-key-longer-than-eight-bytes-" + strconv.Itoa(k)
 	case 0:
 		return k
 	case 1:
@@ -98,7 +100,7 @@ func natKey(x interface{}) int {
 	case int:
 		return v
 	case string:
-		n, _ := strconv.Atoi(strings.TrimPrefix(v, "k"))
+		n, _ := strconv.Atoi(v[strings.LastIndexAny(v, "k-")+1:])
 		return n
 	case int64:
 		return int(v)
@@ -258,42 +260,81 @@ type wideAPI interface {
 	Pkg() string
 }
 
-type wideSized struct{ c cache.LRUFacade }
+// wideKey: the Go key of script key k on a wide cache with table routing — every key type remap supports and a map
+// can hold: non-negative and NEGATIVE ints, int64 near MinInt64, uint64 above 2^63, short and long strings.
+// (Array / struct keys are not supported by remap: its ToBytes panics "unsupported.type.for.slot" — outside.)
+func wideKey(k int) interface{} {
+	switch k % 6 {
+	case 1:
+		return -k - 1
+	case 2:
+		return int64(math.MinInt64) + int64(k)
+	case 3:
+		return uint64(math.MaxUint64) - uint64(k)
+	case 4:
+		return "w" + strconv.Itoa(k)
+	case 5:
+		return "wide-key-longer-than-eight-bytes-" + strconv.Itoa(k)
+	}
+	return k
+}
+
+type wideSized struct {
+	c     cache.LRUFacade
+	mixed bool
+}
+
+func (a wideSized) key(k int) interface{} {
+	if a.mixed {
+		return wideKey(k)
+	}
+	return k
+}
 
 func (a wideSized) Pkg() string       { return "cache.WideLRUCache" }
-func (a wideSized) Set(k, v, sz int)  { a.c.Set(k, &sval{v, sz}) }
-func (a wideSized) Exist(k int) bool  { return a.c.Exist(k) }
-func (a wideSized) Delete(k int) bool { return a.c.Delete(k) }
+func (a wideSized) Set(k, v, sz int)  { a.c.Set(a.key(k), &sval{v, sz}) }
+func (a wideSized) Exist(k int) bool  { return a.c.Exist(a.key(k)) }
+func (a wideSized) Delete(k int) bool { return a.c.Delete(a.key(k)) }
 func (a wideSized) Get(k int) (int, bool) {
-	v, ok := a.c.Get(k)
+	v, ok := a.c.Get(a.key(k))
 	if !ok {
 		return 0, false
 	}
 	return v.(*sval).id, true
 }
 func (a wideSized) Peek(k int) (int, bool) {
-	v, ok := a.c.Peek(k)
+	v, ok := a.c.Peek(a.key(k))
 	if !ok {
 		return 0, false
 	}
 	return v.(*sval).id, true
 }
 
-type wideTiny struct{ c tiny.LRU }
+type wideTiny struct {
+	c     tiny.LRU
+	mixed bool
+}
+
+func (a wideTiny) key(k int) interface{} {
+	if a.mixed {
+		return wideKey(k)
+	}
+	return k
+}
 
 func (a wideTiny) Pkg() string       { return "tiny.WideLRUCache" }
-func (a wideTiny) Set(k, v, sz int)  { a.c.Set(k, v) }
-func (a wideTiny) Exist(k int) bool  { return a.c.Exist(k) }
-func (a wideTiny) Delete(k int) bool { return a.c.Delete(k) }
+func (a wideTiny) Set(k, v, sz int)  { a.c.Set(a.key(k), v) }
+func (a wideTiny) Exist(k int) bool  { return a.c.Exist(a.key(k)) }
+func (a wideTiny) Delete(k int) bool { return a.c.Delete(a.key(k)) }
 func (a wideTiny) Get(k int) (int, bool) {
-	v, ok := a.c.Get(k)
+	v, ok := a.c.Get(a.key(k))
 	if !ok {
 		return 0, false
 	}
 	return v.(int), true
 }
 func (a wideTiny) Peek(k int) (int, bool) {
-	v, ok := a.c.Peek(k)
+	v, ok := a.c.Peek(a.key(k))
 	if !ok {
 		return 0, false
 	}
@@ -451,6 +492,9 @@ func (r *runner) line(line string) string {
 		out := r.conc(seed, th, ops)
 		return out
 	}
+	if f[0] == "fill" {
+		return r.fill(f)
+	}
 	// `set|sia|sgr k v p`: the value's Size() panics
 	fault := len(f) == 4 && f[3] == "p" && (f[0] == "set" || f[0] == "sia" || f[0] == "sgr")
 	if fault {
@@ -500,6 +544,31 @@ func parseOp(f []string) (string, []int64, bool) {
 		}
 	}
 	return f[0], args, true
+}
+
+// fill a n sz: Set(a+i, value a+i+1, size sz) for i = 0 … n-1; the line answers like the last of these Sets
+func (r *runner) fill(f []string) string {
+	if len(f) != 4 || r.mode != "single" {
+		return "bad-op"
+	}
+	a, ok1 := parseNat(f[1])
+	n, ok2 := parseNat(f[2])
+	sz, ok3 := parseInt(f[3])
+	if !ok1 || !ok2 || !ok3 || n == 0 || n > 5000 || a > 100000 {
+		return "bad-op"
+	}
+	for i := 0; i < n-1; i++ {
+		k := a + i
+		if guard(func() { r.a.Set(k, k+1, int(sz)) }) {
+			if sz < 0 {
+				r.regime = false
+			}
+			if r.regime {
+				r.hit("C04:"+r.a.Pkg()+":Set:panics", fmt.Sprintf("set %d %d %d while filling", k, k+1, sz))
+			}
+		}
+	}
+	return r.singleOp("set", []int64{int64(a + n - 1), int64(a + n), sz})
 }
 
 func (r *runner) singleOp(op string, args []int64) string {
@@ -869,9 +938,9 @@ func concChild(args []string) {
 	var w wideAPI
 	switch {
 	case shards > 0 && kind == "tiny":
-		w = wideTiny{tiny.NeWideLRU(capacity, remap.WithPrime(uint64(shards)))}
+		w = wideTiny{tiny.NeWideLRU(capacity, remap.WithPrime(uint64(shards))), false}
 	case shards > 0:
-		w = wideSized{cache.NeWideLRUCache(capacity, remap.WithPrime(uint64(shards)))}
+		w = wideSized{cache.NeWideLRUCache(capacity, remap.WithPrime(uint64(shards))), false}
 	case kind == "tiny":
 		a = tinyAd{tiny.NewLRUCache(capacity)}
 	default:
@@ -1058,15 +1127,16 @@ func (r *runner) wnew(f []string) string {
 	if !ok || !ok2 || !ok3 || n == 0 || n > maxShards || u > 64 {
 		return "bad-op"
 	}
-	xhash := false
+	xhash, mixed := false, false
 	route := make([]int, u)
 	switch {
 	case f[5] == "mod" && len(f) == 6:
 		for k := range route {
 			route[k] = k % n
 		}
-	case f[5] == "tab" && len(f) == 7:
-		xhash = true
+	case (f[5] == "tab" || f[5] == "tabs") && len(f) == 7:
+		xhash = f[5] == "tab"
+		mixed = true
 		parts := strings.Split(f[6], ",")
 		if len(parts) != u {
 			return "bad-op"
@@ -1093,13 +1163,13 @@ func (r *runner) wnew(f []string) string {
 	opt := remap.WithPrime(uint64(n))
 	switch {
 	case r.tiny && xhash:
-		r.w = wideTiny{tiny.NewWideXHashLRU(c, opt)}
+		r.w = wideTiny{tiny.NewWideXHashLRU(c, opt), mixed}
 	case r.tiny:
-		r.w = wideTiny{tiny.NeWideLRU(c, opt)}
+		r.w = wideTiny{tiny.NeWideLRU(c, opt), mixed}
 	case xhash:
-		r.w = wideSized{cache.NewWideXHashLRUCache(c, opt)}
+		r.w = wideSized{cache.NewWideXHashLRUCache(c, opt), mixed}
 	default:
-		r.w = wideSized{cache.NeWideLRUCache(c, opt)}
+		r.w = wideSized{cache.NeWideLRUCache(c, opt), mixed}
 	}
 	return "ok"
 }
